@@ -1,12 +1,12 @@
 import Mathlib.Tactic.SplitIfs
 import Pycoin.Proofs.VMWalk
 /-!
-Signature deletion: pycoin's `_delete_signature` (instruction walk, drops the instructions whose bytes equal the canonical
-push of the signature; signatures taken bottom-most first) and Core's `FindAndDelete(scriptCode, CScript() << sig)`
-(top-most first) produce the same script code whenever every instruction of the script code decodes and the signatures
-are at most 520 bytes long (`delAgrees_walkable`).  Both are the filter "instruction ≠ push of a signature" on the
-instruction list; decoding is local (`getScriptOp_local`), so the rebuilt script walks as the filtered list
-(`secs_of_instrs`) and the filters commute.
+Signature deletion: pycoin's `_delete_signature` (instruction walk that drops the instructions whose bytes equal the
+canonical push of the signature and keeps an undecodable tail verbatim; signatures taken bottom-most first) and Core's
+`FindAndDelete(scriptCode, CScript() << sig)` (top-most first) produce the same script code for **every** script code and
+all signatures of at most 520 bytes (`delAgrees_all`).  Both are the filter "instruction ≠ push of a signature" on the
+instruction list, followed by the undecodable tail; decoding is local (`getScriptOp_local`), so the rebuilt script walks as
+the filtered list with the same tail (`secs_rebuild`) and the filters commute.
 -/
 namespace Pycoin.VM
 open Pycoin.Spec Pycoin.Gen.VM CondStack Consensus
@@ -79,53 +79,84 @@ def secs : Nat → Bytes → List Bytes
     | none => []
     | some (_, _, rest', sz) => rest.take sz :: secs f rest'
 
-theorem secs_flatten (rest : Bytes) (h : Walkable rest) : ∀ f, rest.length ≤ f → (secs f rest).flatten = rest := by
-  induction h with
-  | nil => intro f _; cases f <;> simp [secs, getScriptOp]
-  | @cons rest rest' d op sz hg hw ih =>
-    intro f hf
-    obtain ⟨hr, hpos, hle⟩ := getScriptOp_rest _ _ _ _ _ hg
-    have hl' : rest'.length = rest.length - sz := by rw [hr, List.length_drop]
-    cases f with
-    | zero => omega
-    | succ f =>
-      simp only [secs, hg, List.flatten_cons, ih f (by omega)]
+
+/-- what `GetScriptOp` cannot decode at the end of the script (empty for a script whose pushes are complete) -/
+def tl : Nat → Bytes → Bytes
+  | 0, rest => rest
+  | f + 1, rest =>
+    match getScriptOp rest with
+    | none => rest
+    | some (_, _, rest', _) => tl f rest'
+
+theorem getScriptOp_nil : getScriptOp [] = none := rfl
+
+theorem secs_tl_flatten : ∀ (f : Nat) (rest : Bytes), (secs f rest).flatten ++ tl f rest = rest := by
+  intro f
+  induction f with
+  | zero => intro rest; simp [secs, tl]
+  | succ f ih =>
+    intro rest
+    cases hg : getScriptOp rest with
+    | none => simp [secs, tl, hg]
+    | some r =>
+      obtain ⟨op, d, rest', sz⟩ := r
+      obtain ⟨hr, _, _⟩ := getScriptOp_rest _ _ _ _ _ hg
+      simp only [secs, tl, hg, List.flatten_cons, List.append_assoc, ih rest']
       rw [hr, List.take_append_drop]
 
-theorem secs_isInstr (rest : Bytes) (h : Walkable rest) : ∀ f, ∀ s ∈ secs f rest, IsInstr s := by
-  induction h with
-  | nil => intro f s hs; cases f <;> simp [secs, getScriptOp] at hs
-  | @cons rest rest' d op sz hg hw ih =>
-    intro f s hs
-    obtain ⟨hr, hpos, hle⟩ := getScriptOp_rest _ _ _ _ _ hg
-    cases f with
-    | zero => simp [secs] at hs
-    | succ f =>
+theorem tl_none : ∀ (f : Nat) (rest : Bytes), rest.length ≤ f → getScriptOp (tl f rest) = none := by
+  intro f
+  induction f with
+  | zero =>
+    intro rest h
+    have : rest = [] := List.eq_nil_of_length_eq_zero (by omega)
+    subst this; rfl
+  | succ f ih =>
+    intro rest h
+    cases hg : getScriptOp rest with
+    | none => simp only [tl, hg]
+    | some r =>
+      obtain ⟨op, d, rest', sz⟩ := r
+      obtain ⟨hr, hpos, hle⟩ := getScriptOp_rest _ _ _ _ _ hg
+      simp only [tl, hg]
+      exact ih rest' (by rw [hr, List.length_drop]; omega)
+
+theorem secs_isInstr : ∀ (f : Nat) (rest : Bytes), ∀ s ∈ secs f rest, IsInstr s := by
+  intro f
+  induction f with
+  | zero => intro rest s hs; simp [secs] at hs
+  | succ f ih =>
+    intro rest s hs
+    cases hg : getScriptOp rest with
+    | none => simp [secs, hg] at hs
+    | some r =>
+      obtain ⟨op, d, rest', sz⟩ := r
+      obtain ⟨hr, hpos, hle⟩ := getScriptOp_rest _ _ _ _ _ hg
       simp only [secs, hg, List.mem_cons] at hs
       rcases hs with rfl | hs
       · have hlen : (rest.take sz).length = sz := by rw [List.length_take]; exact Nat.min_eq_left hle
         refine ⟨by intro h0; rw [h0] at hlen; simp at hlen; omega, fun t => ⟨op, d, ?_⟩⟩
         rw [hlen]
         exact getScriptOp_local rest op d rest' sz hg t
-      · exact ih f s hs
+      · exact ih rest' s hs
 
-theorem secs_of_instrs : ∀ (L : List Bytes), (∀ s ∈ L, IsInstr s) → ∀ f, L.flatten.length ≤ f →
-    secs f L.flatten = L ∧ Walkable L.flatten := by
+/-- the walk of whole instructions followed by an undecodable tail is those instructions and that tail -/
+theorem secs_of_instrs (T : Bytes) (hT : getScriptOp T = none) : ∀ (L : List Bytes), (∀ s ∈ L, IsInstr s) →
+    ∀ f, (L.flatten ++ T).length ≤ f → secs f (L.flatten ++ T) = L ∧ tl f (L.flatten ++ T) = T := by
   intro L
   induction L with
-  | nil => intro _ f _; cases f <;> simp [secs, getScriptOp, Walkable.nil]
+  | nil => intro _ f _; cases f <;> simp [secs, tl, hT]
   | cons a L ih =>
     intro hI f hf
     obtain ⟨hne, hdec⟩ := hI a (by simp)
-    obtain ⟨op, d, hg⟩ := hdec L.flatten
+    obtain ⟨op, d, hg⟩ := hdec (L.flatten ++ T)
     have hpos : 0 < a.length := List.length_pos_iff.mpr hne
-    simp only [List.flatten_cons, List.length_append] at hf ⊢
+    simp only [List.flatten_cons, List.append_assoc, List.length_append] at hf ⊢
     cases f with
     | zero => omega
     | succ f =>
-      obtain ⟨h1, h2⟩ := ih (fun s hs => hI s (by simp [hs])) f (by omega)
-      refine ⟨?_, .cons hg h2⟩
-      simp only [secs, hg, h1, List.take_left']
+      obtain ⟨h1, h2⟩ := ih (fun s hs => hI s (by simp [hs])) f (by simp only [List.length_append]; omega)
+      exact ⟨by simp only [secs, hg, h1, List.take_left' rfl], by simp only [tl, hg, h2]⟩
 
 theorem isPrefixOf_iff' {a s : Bytes} : a.isPrefixOf s = true ↔ ∃ t, s = a ++ t := by
   rw [List.isPrefixOf_iff_prefix]
@@ -133,104 +164,99 @@ theorem isPrefixOf_iff' {a s : Bytes} : a.isPrefixOf s = true ↔ ∃ t, s = a +
   · rintro ⟨t, ht⟩; exact ⟨t, ht.symm⟩
   · rintro ⟨t, ht⟩; exact ⟨t, ht.symm⟩
 
-/-- `FindAndDelete` of a whole instruction drops exactly the instructions equal to it -/
-theorem findAndDeleteAux_secs (sub : Bytes) (hsub : IsInstr sub) (rest : Bytes) (h : Walkable rest) :
-    ∀ f, rest.length ≤ f →
-      Consensus.findAndDeleteAux sub (f + 1) rest = ((secs f rest).filter (fun x => x ≠ sub)).flatten := by
+/-- `FindAndDelete` of a whole instruction drops exactly the instructions equal to it and keeps the undecodable tail -/
+theorem findAndDeleteAux_secs (sub : Bytes) (hsub : IsInstr sub) : ∀ (f : Nat) (rest : Bytes), rest.length ≤ f →
+    Consensus.findAndDeleteAux sub (f + 1) rest = ((secs f rest).filter (fun x => x ≠ sub)).flatten ++ tl f rest := by
   have hnp : sub.isPrefixOf [] = false := by
     cases hs : sub with
     | nil => exact absurd hs hsub.1
     | cons a as => rfl
-  induction h with
-  | nil =>
-    intro f _
-    cases f <;> simp [Consensus.findAndDeleteAux, secs, getScriptOp, hnp]
-  | @cons rest rest' d op sz hg hw ih =>
-    intro f hf
-    obtain ⟨hr, hpos, hle⟩ := getScriptOp_rest _ _ _ _ _ hg
-    have hl' : rest'.length = rest.length - sz := by rw [hr, List.length_drop]
-    cases f with
-    | zero => omega
-    | succ f =>
-      have ihr := ih f (by omega)
-      unfold Consensus.findAndDeleteAux
-      by_cases hp : sub.isPrefixOf rest = true
-      · obtain ⟨t, ht⟩ := isPrefixOf_iff'.mp hp
-        obtain ⟨op', d', hg'⟩ := hsub.2 t
-        rw [← ht, hg] at hg'
-        simp only [Option.some.injEq, Prod.mk.injEq] at hg'
-        obtain ⟨_, _, hrt, hsz⟩ := hg'
-        have hsec : rest.take sz = sub := by rw [ht, hsz, List.take_left' rfl]
-        have hdrop : rest.drop sub.length = rest' := by rw [ht, List.drop_left' rfl, hrt]
-        simp only [hp, if_true, hdrop, ihr, secs, hg, hsec, List.filter_cons, ne_eq, not_true_eq_false, decide_false,
-          Bool.false_eq_true, if_false]
-      · have hsec : rest.take sz ≠ sub := by
+  intro f
+  induction f with
+  | zero =>
+    intro rest h
+    have : rest = [] := List.eq_nil_of_length_eq_zero (by omega)
+    subst this
+    simp [Consensus.findAndDeleteAux, secs, tl, getScriptOp_nil, hnp]
+  | succ f ih =>
+    intro rest hf
+    unfold Consensus.findAndDeleteAux
+    by_cases hp : sub.isPrefixOf rest = true
+    · obtain ⟨t, ht⟩ := isPrefixOf_iff'.mp hp
+      obtain ⟨op', d', hg'⟩ := hsub.2 t
+      rw [← ht] at hg'
+      have hpos : 0 < sub.length := List.length_pos_iff.mpr hsub.1
+      have htl : t.length ≤ f := by
+        have := congrArg List.length ht
+        simp only [List.length_append] at this; omega
+      have hsec : rest.take sub.length = sub := by rw [ht, List.take_left' rfl]
+      have hdrop : rest.drop sub.length = t := by rw [ht, List.drop_left' rfl]
+      simp only [hp, if_true, hdrop, ih t htl, secs, tl, hg', hsec, List.filter_cons, ne_eq, not_true_eq_false, decide_false,
+        Bool.false_eq_true, if_false]
+    · simp only [hp, Bool.false_eq_true, if_false]
+      cases hg : getScriptOp rest with
+      | none => simp [secs, tl, hg]
+      | some r =>
+        obtain ⟨op, d, rest', sz⟩ := r
+        obtain ⟨hr, hpos, hle⟩ := getScriptOp_rest _ _ _ _ _ hg
+        have hsec : rest.take sz ≠ sub := by
           intro hh
           apply hp
           exact isPrefixOf_iff'.mpr ⟨rest', by rw [← hh, hr, List.take_append_drop]⟩
-        simp only [hp, Bool.false_eq_true, if_false, hg, ihr, secs, List.filter_cons, ne_eq, hsec, not_false_eq_true,
-          decide_true, if_true, List.flatten_cons]
+        have hl' : rest'.length ≤ f := by rw [hr, List.length_drop]; omega
+        simp only [ih rest' hl', secs, tl, hg, List.filter_cons, ne_eq, hsec, not_false_eq_true, decide_true, if_true,
+          List.flatten_cons, List.append_assoc]
 
-theorem findAndDelete_secs (code sub : Bytes) (hsub : IsInstr sub) (h : Walkable code) :
-    Consensus.findAndDelete code sub = ((secs code.length code).filter (fun x => x ≠ sub)).flatten := by
+theorem findAndDelete_secs (code sub : Bytes) (hsub : IsInstr sub) :
+    Consensus.findAndDelete code sub =
+      ((secs code.length code).filter (fun x => x ≠ sub)).flatten ++ tl code.length code := by
   unfold Consensus.findAndDelete
   have : sub.isEmpty = false := by
     cases hs : sub with
     | nil => exact absurd hs hsub.1
     | cons a as => rfl
   simp only [this, Bool.false_eq_true, if_false]
-  exact findAndDeleteAux_secs sub hsub code h code.length (Nat.le_refl _)
+  exact findAndDeleteAux_secs sub hsub code.length code (Nat.le_refl _)
 
-/-! ### pycoin's `_delete_signature` as the same section filter -/
-
-theorem walkable_inv (rest : Bytes) (h : Walkable rest) (hne : rest ≠ []) :
-    ∃ op d rest' sz, getScriptOp rest = some (op, d, rest', sz) ∧ Walkable rest' := by
-  cases h with
-  | nil => exact absurd rfl hne
-  | cons hg hw => exact ⟨_, _, _, _, hg, hw⟩
+/-! ### pycoin's `delete_subscript` as the same section filter -/
 
 theorem u8_ofNat_mod256 (n : Nat) : UInt8.ofNat (n % 256) = UInt8.ofNat n := by
   apply UInt8.toNat_inj.mp
   simp [UInt8.toNat_ofNat']
 
-theorem spans_secs (script : Bytes) : ∀ (fuel pc : Nat), pc ≤ script.length → Walkable (script.drop pc) →
-    script.length - pc ≤ fuel →
-    ∃ spans, opcodeSpans script fuel pc = .ok spans ∧
-      spans.map (fun t => slice script t.2.1 t.2.2) = secs fuel (script.drop pc) := by
+theorem deleteSubscript_secs (script sub : Bytes) : ∀ (fuel pc : Nat), pc ≤ script.length → script.length - pc ≤ fuel →
+    deleteSubscript script sub fuel pc =
+      .ok (((secs fuel (script.drop pc)).filter (fun x => x ≠ sub)).flatten ++ tl fuel (script.drop pc)) := by
   intro fuel
   induction fuel with
   | zero =>
-    intro pc hpc _ hf
+    intro pc hpc hf
     have : script.drop pc = [] := List.drop_eq_nil_iff.mpr (by omega)
-    exact ⟨[], rfl, by simp [secs]⟩
+    simp [deleteSubscript, secs, tl, this]
   | succ f ih =>
-    intro pc hpc hw hf
+    intro pc hpc hf
     by_cases hlt : pc < script.length
     swap
     · have : script.drop pc = [] := List.drop_eq_nil_iff.mpr (by omega)
-      exact ⟨[], by simp [opcodeSpans, hlt], by simp [secs, this, getScriptOp]⟩
-    obtain ⟨op, d, rest', sz, hg, hw'⟩ := walkable_inv _ hw (by
-      intro hd; have := List.drop_eq_nil_iff.mp hd; omega)
-    · obtain ⟨hrest, hpos, hle⟩ := getScriptOp_rest _ _ _ _ _ hg
+      simp [deleteSubscript, hlt, secs, tl, this, getScriptOp_nil]
+    cases hg : getScriptOp (script.drop pc) with
+    | none =>
+      have hr := getOp_refines script pc false hlt
+      unfold GetOpRefines at hr
+      rw [hg] at hr
+      obtain ⟨fd, hfd, hok, _⟩ := hr
+      simp [deleteSubscript, hlt, hfd, hok, secs, tl, hg, bind, Except.bind, pure, Except.pure]
+    | some r =>
+      obtain ⟨op, d, rest', sz⟩ := r
+      obtain ⟨hrest, hpos, hle⟩ := getScriptOp_rest _ _ _ _ _ hg
       have hlen : (script.drop pc).length = script.length - pc := List.length_drop
       have hdrop : rest' = script.drop (pc + sz) := by rw [hrest, List.drop_drop]
-      rw [hdrop] at hw'
-      obtain ⟨spans, hs1, hs2⟩ := ih (pc + sz) (by omega) hw' (by omega)
       obtain ⟨dd, hgo⟩ := getOp_false script pc hlt op d rest' sz hg
-      refine ⟨(op, pc, pc + sz) :: spans, ?_, ?_⟩
-      · simp [opcodeSpans, hlt, hgo, hs1, bind, Except.bind, pure, Except.pure]
-      · simp only [List.map_cons, secs, hg, hs2, hdrop]
-        congr 1
-        unfold slice
-        rw [show pc + sz - pc = sz by omega]
-
-theorem flatMap_filter (l : List (Nat × Nat × Nat)) (g : Nat × Nat × Nat → Bytes) (sub : Bytes) :
-    l.flatMap (fun x => if g x = sub then [] else g x) = ((l.map g).filter (fun x => x ≠ sub)).flatten := by
-  induction l with
-  | nil => rfl
-  | cons a l ih =>
-    simp only [List.flatMap_cons, List.map_cons, List.filter_cons, ih]
-    by_cases h : g a = sub <;> simp [h]
+      have hsl : slice script pc (pc + sz) = (script.drop pc).take sz := by
+        unfold slice; rw [show pc + sz - pc = sz by omega]
+      simp only [deleteSubscript, hlt, if_true, hgo, bind, Except.bind, Bool.not_true, Bool.false_eq_true, if_false,
+        ih (pc + sz) (by omega) (by omega), pure, Except.pure, secs, tl, hg, hsl, hdrop, List.filter_cons]
+      by_cases hs : (script.drop pc).take sz = sub <;> simp [hs]
 
 theorem sizedEncoder_none : ∀ n, 76 ≤ n → sizedEncoder.find? (·.1 = n) = none := by
   have h : sizedEncoder.all (fun e => decide (e.1 ≤ 75)) = true := by decide +kernel
@@ -327,16 +353,15 @@ theorem pushData_isInstr (d : Bytes) (hl : d.length ≤ 520) : IsInstr (pushData
       simp only [this, if_true, List.take_left' rfl, List.drop_left' rfl]
       exact ⟨_, _, by rw [show 1 + 2 + d.length = 2 + d.length + 1 by omega]⟩
 
-/-- `_delete_signature(script, sig)` drops exactly the instructions equal to `CScript() << sig` -/
-theorem deleteSignature_secs (code sig : Bytes) (hw : Walkable code) (hl : sig.length ≤ 520) :
-    deleteSignature code sig = .ok ((secs code.length code).filter (fun x => x ≠ pushData sig)).flatten := by
+/-- `_delete_signature(script, sig)` drops exactly the instructions equal to `CScript() << sig`, keeps the undecodable tail -/
+theorem deleteSignature_secs (code sig : Bytes) (hl : sig.length ≤ 520) :
+    deleteSignature code sig =
+      .ok (((secs code.length code).filter (fun x => x ≠ pushData sig)).flatten ++ tl code.length code) := by
   obtain ⟨sub0, h0, hsub⟩ := modelSub_eq sig hl
-  obtain ⟨spans, hs1, hs2⟩ := spans_secs code code.length 0 (Nat.zero_le _) (by simpa using hw) (by omega)
-  simp only [List.drop_zero] at hs2
   unfold deleteSignature
-  simp only [h0, hs1, bind, Except.bind, pure, Except.pure, hsub]
-  rw [← hs2]
-  exact congrArg Except.ok (flatMap_filter spans (fun t => slice code t.2.1 t.2.2) (pushData sig))
+  simp only [h0, bind, Except.bind, hsub]
+  have := deleteSubscript_secs code (pushData sig) code.length 0 (Nat.zero_le _) (by omega)
+  simpa using this
 
 /-- what is left of the instruction list after removing the pushes of `subs` -/
 def keepNot (subs : List Bytes) (L : List Bytes) : List Bytes :=
@@ -353,42 +378,41 @@ theorem keepNot_cons (s : Bytes) (ss : List Bytes) (L : List Bytes) :
 theorem filter_instr (L : List Bytes) (p : Bytes → Bool) (h : ∀ s ∈ L, IsInstr s) : ∀ s ∈ L.filter p, IsInstr s :=
   fun s hs => h s (List.mem_filter.mp hs).1
 
-/-- the walk of a script rebuilt from some of its own instructions is those instructions -/
-theorem secs_rebuild (code : Bytes) (hw : Walkable code) (p : Bytes → Bool) :
-    let code1 := ((secs code.length code).filter p).flatten
-    secs code1.length code1 = (secs code.length code).filter p ∧ Walkable code1 :=
-  secs_of_instrs _ (filter_instr _ p (secs_isInstr code hw code.length)) _ (Nat.le_refl _)
+/-- the walk of a script rebuilt from some of its own instructions and its undecodable tail -/
+theorem secs_rebuild (code : Bytes) (p : Bytes → Bool) :
+    let code1 := ((secs code.length code).filter p).flatten ++ tl code.length code
+    secs code1.length code1 = (secs code.length code).filter p ∧ tl code1.length code1 = tl code.length code :=
+  secs_of_instrs _ (tl_none _ _ (Nat.le_refl _)) _ (filter_instr _ p (secs_isInstr code.length code)) _ (Nat.le_refl _)
 
-theorem deleteSignatures_secs : ∀ (l : List Bytes) (code : Bytes), Walkable code → (∀ s ∈ l, s.length ≤ 520) →
-    deleteSignatures code l = .ok (keepNot l (secs code.length code)).flatten := by
+theorem deleteSignatures_secs : ∀ (l : List Bytes) (code : Bytes), (∀ s ∈ l, s.length ≤ 520) →
+    deleteSignatures code l = .ok ((keepNot l (secs code.length code)).flatten ++ tl code.length code) := by
   intro l
   induction l with
   | nil =>
-    intro code hw _
+    intro code _
     have hf : ∀ L : List Bytes, L.filter (fun _ => true) = L := fun L => by simp
-    simp only [deleteSignatures, keepNot, List.all_nil, hf]
-    rw [secs_flatten code hw code.length (Nat.le_refl _)]
+    simp only [deleteSignatures, keepNot, List.all_nil, hf, secs_tl_flatten]
   | cons s ss ih =>
-    intro code hw hl
-    simp only [deleteSignatures, deleteSignature_secs code s hw (hl s (by simp)), bind, Except.bind]
-    obtain ⟨h1, h2⟩ := secs_rebuild code hw (fun x => x ≠ pushData s)
-    rw [ih _ h2 (fun x hx => hl x (by simp [hx])), h1, keepNot_cons]
+    intro code hl
+    simp only [deleteSignatures, deleteSignature_secs code s (hl s (by simp)), bind, Except.bind]
+    obtain ⟨h1, h2⟩ := secs_rebuild code (fun x => x ≠ pushData s)
+    rw [ih _ (fun x hx => hl x (by simp [hx])), h1, h2, keepNot_cons]
 
-theorem foldl_findAndDelete_secs : ∀ (l : List Bytes) (code : Bytes), Walkable code → (∀ s ∈ l, s.length ≤ 520) →
-    l.foldl (fun c s => Consensus.findAndDelete c (pushData s)) code = (keepNot l (secs code.length code)).flatten := by
+theorem foldl_findAndDelete_secs : ∀ (l : List Bytes) (code : Bytes), (∀ s ∈ l, s.length ≤ 520) →
+    l.foldl (fun c s => Consensus.findAndDelete c (pushData s)) code =
+      (keepNot l (secs code.length code)).flatten ++ tl code.length code := by
   intro l
   induction l with
   | nil =>
-    intro code hw _
+    intro code _
     have hf : ∀ L : List Bytes, L.filter (fun _ => true) = L := fun L => by simp
-    simp only [List.foldl_nil, keepNot, List.all_nil, hf]
-    rw [secs_flatten code hw code.length (Nat.le_refl _)]
+    simp only [List.foldl_nil, keepNot, List.all_nil, hf, secs_tl_flatten]
   | cons s ss ih =>
-    intro code hw hl
+    intro code hl
     simp only [List.foldl_cons]
-    rw [findAndDelete_secs code _ (pushData_isInstr s (hl s (by simp))) hw]
-    obtain ⟨h1, h2⟩ := secs_rebuild code hw (fun x => x ≠ pushData s)
-    rw [ih _ h2 (fun x hx => hl x (by simp [hx])), h1, keepNot_cons]
+    rw [findAndDelete_secs code _ (pushData_isInstr s (hl s (by simp)))]
+    obtain ⟨h1, h2⟩ := secs_rebuild code (fun x => x ≠ pushData s)
+    rw [ih _ (fun x hx => hl x (by simp [hx])), h1, h2, keepNot_cons]
 
 theorem keepNot_reverse (l L : List Bytes) : keepNot l.reverse L = keepNot l L := by
   unfold keepNot
@@ -396,17 +420,22 @@ theorem keepNot_reverse (l L : List Bytes) : keepNot l.reverse L = keepNot l L :
   funext x
   rw [List.all_reverse]
 
-/-- **signature deletion agrees** on every script code whose instructions all decode: pycoin's `_delete_signature`
-walk, bottom-most signature first, and Core's `FindAndDelete`, top-most first, give the same bytes -/
-theorem delAgrees_walkable (cfg : Config) (st : Consensus.State) (sigs : List Bytes)
-    (hw : Walkable (cfg.script.drop st.codeSep)) (hl : ∀ s ∈ sigs, s.length ≤ 520) : DelAgrees cfg st sigs := by
+/-- **signature deletion agrees** on every script code: pycoin's `_delete_signature` walk, bottom-most signature first,
+and Core's `FindAndDelete`, top-most first, give the same bytes (signatures of at most 520 bytes) -/
+theorem delAgrees_all (cfg : Config) (st : Consensus.State) (sigs : List Bytes) (hl : ∀ s ∈ sigs, s.length ≤ 520) :
+    DelAgrees cfg st sigs := by
   unfold DelAgrees pyCode scriptCodeFor
   cases hwit : cfg.witness
   · have hsv : ((specEnv cfg).sigversion == SigVersion.base) = true := by simp [specEnv, hwit]
     simp only [Bool.false_eq_true, if_false, hsv, if_true]
-    rw [deleteSignatures_secs _ _ hw (fun s hs => hl s (by simpa using hs)), keepNot_reverse]
-    exact congrArg Except.ok (foldl_findAndDelete_secs sigs _ hw hl).symm
+    rw [deleteSignatures_secs _ _ (fun s hs => hl s (by simpa using hs)), keepNot_reverse]
+    exact congrArg Except.ok (foldl_findAndDelete_secs sigs _ hl).symm
   · have hsv : ((specEnv cfg).sigversion == SigVersion.base) = false := by simp [specEnv, hwit]
     simp only [hsv, if_true, Bool.false_eq_true, if_false, pure, Except.pure]
     rfl
+
+theorem delAgrees_walkable (cfg : Config) (st : Consensus.State) (sigs : List Bytes)
+    (_hw : Walkable (cfg.script.drop st.codeSep)) (hl : ∀ s ∈ sigs, s.length ≤ 520) : DelAgrees cfg st sigs :=
+  delAgrees_all cfg st sigs hl
+
 end Pycoin.VM
